@@ -11,6 +11,7 @@ import (
 	"path/filepath"
 	"strings"
 	"sync"
+	"sync/atomic"
 	"testing"
 	"time"
 
@@ -263,6 +264,92 @@ func TestC06_ConcurrentDiscard(t *testing.T) {
 					t.Fatalf("VERIF-VIOLATION C06: DiscardOldest with %d producers: producer %d's last item #%d was dropped although its older item #%d stayed buffered (the arriving item must be kept, the oldest dropped)", producers, pr, per-1, is[len(is)-1])
 				}
 			}
+		}
+	})
+}
+
+// TestC06_BlockLongStall: Block waits for space - however long the appender makes no progress. The
+// worker is parked in a gated appender for several seconds (4 s quick, 15 s thorough) while 1-3
+// producers submit more than buffer + 1 items; nobody may have finished before the gate opens, and
+// afterwards every item is delivered exactly once, each producer's in submission order.
+func TestC06_BlockLongStall(t *testing.T) {
+	vk.Rule(rule)
+	hold := 4 * time.Second
+	if vk.Thorough() {
+		hold = 15 * time.Second
+	}
+	rapid.Check(t, func(t *rapid.T) {
+		producers := rapid.IntRange(1, 3).Draw(t, "producers")
+		per := rapid.IntRange(102, 160).Draw(t, "per")
+		size := rapid.SampledFrom([]int{100, 101, 128}).Draw(t, "bufferSize")
+		if producers == 1 && per <= size+1 {
+			per = size + 2 + per%20
+		}
+		vk.ResetRecs()
+		gate := vk.NewGate()
+		vk.SetBehavior("g", gate)
+		g := &vk.RecAppender{AppenderBase: log.AppenderBase{Name: "g"}}
+		_ = g.Start()
+		all := log.LevelRange{MinLevel: log.NoneLevel, MaxLevel: log.MaxLevel}
+		l := &log.AsyncLogger{LoggerBase: log.LoggerBase{Name: "bl", Level: all}, AppenderRefs: log.AppenderRefs{AppenderRefs: []*log.AppenderRef{{Appender: g, Level: all}}}, BufferSize: size, BufferFullPolicy: log.BufferFullPolicyBlock}
+		if err := l.Start(); err != nil {
+			t.Fatalf("VERIF-INCONCLUSIVE C06: %v", err)
+		}
+		var finished atomic.Int32
+		var wg sync.WaitGroup
+		for pr := 0; pr < producers; pr++ {
+			wg.Add(1)
+			go func() {
+				defer wg.Done()
+				defer func() { _ = recover() }()
+				for i := 0; i < per; i++ {
+					id := int64(pr)*1_000_000 + int64(i)
+					if i%3 == 0 {
+						l.Write([]byte(fmt.Sprintf("id=%d\n", id)))
+					} else {
+						e := log.GetEvent()
+						e.Level, e.Time, e.Tag, e.Fields = log.InfoLevel, time.Unix(0, 0), "_c06", []log.Field{log.Int("id", id)}
+						l.Append(e)
+					}
+				}
+				finished.Add(1)
+			}()
+		}
+		time.Sleep(hold)
+		early := finished.Load()
+		close(gate.Release)
+		doneCh := make(chan struct{})
+		go func() { wg.Wait(); close(doneCh) }()
+		select {
+		case <-doneCh:
+		case <-time.After(30 * time.Second):
+			vk.HardFail("c06-hang", map[string]any{"policy": "Block", "producers": producers, "per": per}, "C06: Block: the producers did not finish within 30 s after the appender was released")
+		}
+		if d, _ := vk.Within(30*time.Second, l.Stop); !d {
+			vk.HardFail("c06-hang", map[string]any{"policy": "Block"}, "C06: Stop did not return after the gate opened")
+		}
+		vk.Eval()
+		vk.Class("block-long-stall")
+		vk.NonTrivial(fmt.Sprintf("block-long-stall/%d/%d/%d", producers, per, size))
+		if early == int32(producers) {
+			t.Fatalf("VERIF-VIOLATION C06: Block with a buffer of %d: %d producer(s) finished submitting %d items each while the appender had taken one item and was stalled for %v - a call must have waited for space", size, producers, per, hold)
+		}
+		last := map[int64]int64{}
+		count := 0
+		for _, it := range g.Items() {
+			pr, i := it.ID/1_000_000, it.ID%1_000_000
+			prev, ok := last[pr]
+			if !ok {
+				prev = -1
+			}
+			if i != prev+1 {
+				t.Fatalf("VERIF-VIOLATION C06: Block (buffer %d, appender stalled for %v): producer %d's item #%d was delivered after its item #%d - under Block nothing is dropped or reordered, the call waits for space", size, hold, pr, i, prev)
+			}
+			last[pr] = i
+			count++
+		}
+		if count != producers*per {
+			t.Fatalf("VERIF-VIOLATION C06: Block (buffer %d, appender stalled for %v): %d items submitted, %d delivered after Stop", size, hold, producers*per, count)
 		}
 	})
 }
